@@ -75,7 +75,15 @@ def run(ctx):
     walks3 = ctx.behaviours("exec", "Gen_TxLocator", "Gen_TxLocator.cfg",
                             constants=dict(gen, Group='"patch"', ForceOn="TRUE", MaxOps=wl2, Depth=wl2),
                             simulate="num=%d" % ctx.pick(150, 3000), depth=wl2 + 1, seed=ctx.seed + 2000, timeout=1200)
-    allb = [_wrap(b) for b in bs + walks + walks2 + walks3]
+    #  (d) the restart scenario, every parameter free: a block with "a" finalized and flushed, restart (new manager over the
+    #      same DB, new root tracker with timestamp 0), a block with "b" finalized and flushed (its flush may evict the root
+    #      list), then a block that may repeat "a", which is only in the database now
+    scen = ctx.behaviours("exec", "Gen_TxLocator", "Gen_TxLocatorPat.cfg", constants=dict(MaxTs=ctx.pick(3, 4)), timeout=1500)
+    dbonly = sum(1 for b in scen if b[-1]["res"] == "dup" and b[-1]["cls"] in ("finalized", "ts-eq-upper-bound"))
+    ctx.log("restart scenarios: %d, ending in a duplicate that is only in the database: %d" % (len(scen), dbonly))
+    if dbonly == 0:
+        raise_vacuous(ctx)
+    allb = [_wrap(b) for b in bs + walks + walks2 + walks3 + scen]
     inp = ctx.path("in", "behaviours.ndjson")
     with open(inp, "w") as fh:
         for b in allb:
